@@ -186,6 +186,7 @@ def plan(tier, seed):
     n = 60 if tier == "quick" else 800
     specs += [{"kind": "rand", "n": n, "sub": i} for i in range(nsh)]
     specs += [{"kind": "join", "n": n, "sub": i} for i in range(nsh)]
+    specs += [{"kind": "flat", "n": n // 2, "sub": i} for i in range(nsh)]
     return specs
 
 
@@ -193,7 +194,7 @@ def floors(tier):
     return {"distinct_nontrivial": 300, "re:ExceptIf(@.*)?\\.enter": 500, "re:Alternative(@.*)?\\.enter": 500,
             "cls:shape:ref_in_ref": 20, "cls:shape:ref_in_alt": 20, "cls:shape:alt_in_ref": 20, "cls:shape:alt_chain": 20,
             "cls:overridden": 200, "cls:alt_fired": 200, "cls:caching_off": 50, "cls:conclusions_spelled_positionally": 100, "cls:preceded_by_an_evaluation_in_which_user_code_raised": 60, "cls:earlier_rule_concluded_a_subclass_for_the_same_objects": 100, "cls:bare_call_as_branch_condition": 150, "cls:or_of_operands_with_different_variables": 100,
-            "cls:nested_query_as_whole_branch_condition": 60, "cls:function_predicate_in_branch_condition": 150,
+            "cls:nested_query_as_whole_branch_condition": 60, "cls:function_predicate_in_branch_condition": 150, "cls:for_all_as_branch_condition": 100, "cls:conclusion_field_is_a_nested_query": 100, "cls:matches_are_parent_element_pairs": 300, "cls:parent_with_several_elements": 250,
             "cls:style:sibling_alternatives": 200, "cls:join_in_tree": 300, "cls:tree_extended_after_it_was_evaluated": 150, "cls:join_item_with_two_links": 200, "cls:alternative_declared_before_refinement": 200, "re:cls:longest_alternative_chain=[3-9]": 50}
 
 
@@ -214,6 +215,8 @@ def _rand_cond(rng, depth=0):
         return ["or2"] + rng.choice([[simple(), pred()], [pred(), simple()], [pred(), pred()], [simple(), ["bare", "big"]]])
     if k < 0.78 and depth == 0:
         return ["exq", rng.choice("abc")]
+    if k < 0.82:
+        return ["fall", rng.choice("abc")]
     if k < 0.86:
         return ["fa", rng.randint(0, 3)]
     return [rng.choice("abc"), rng.randint(0, 3)]
@@ -250,7 +253,11 @@ def gen_case(rng):
         no_alt_for_exq(node[2])
         no_alt_for_exq(node[3])
     no_alt_for_exq(tree)
-    return {"tree": tree, "pool": pool, "data": data, "caching": rng.random() < 0.7, "sibling": rng.random() < 0.5,
+    concl_subq = rng.random() < 0.15
+    if concl_subq:
+        pool = [[v, rng.randint(1, 4), rng.random() < 0.4] for v in (1, 2, 3, 4)]     # every item has exactly one match
+        rng.shuffle(pool)
+    return {"tree": tree, "pool": pool, "concl_subq": concl_subq, "data": data, "caching": rng.random() < 0.7, "sibling": rng.random() < 0.5,
             "alt_first": rng.random() < 0.4, "incremental": rng.random() < 0.4, "positional": rng.random() < 0.3,
             "decoy_rule": rng.random() < 0.2, "boom_at": rng.choice([0, 0, 1, 2, 3, 5, 8])}
 
@@ -299,6 +306,10 @@ def gen_join_case(rng):
 
 
 def cases(spec, ctx):
+    if spec["kind"] == "flat":
+        for i in range(spec["n"]):
+            yield gen_flat_case(ctx.rng("f", spec["sub"], i))
+        return
     if spec["kind"] == "join":
         for i in range(spec["n"]):
             yield gen_join_case(ctx.rng("j", spec["sub"], i))
@@ -330,6 +341,8 @@ def holds(cond, o):
         return getattr(o, cond[1]) > (2 if cond[2] is None else cond[2])
     if cond[0] == "or2":         # or_(c1, c2) with operands that mention different variables (comparison / predicate call)
         return holds(cond[1], o) or holds(cond[2], o)
+    if cond[0] == "fall":        # for_all(m, m.w > x.attr) over the (non-empty) second pool
+        return all(m.w > getattr(o, cond[1]) for m in POOL)
     if cond[0] == "exq":         # an(entity(m, m.v == x.attr, or_(HasType(m, M2), m.w > 2))) as the WHOLE branch condition
         return any(m.v == getattr(o, cond[1]) and (isinstance(m, M2) or m.w > 2) for m in POOL)
     if cond[0] == "bare":        # a bare method call as the whole condition of a branch: x.big()
@@ -352,6 +365,10 @@ def sym(cond, x):
     if cond[0] == "or2":
         from entity_query_language import or_
         return [or_(sym(cond[1], x)[0], sym(cond[2], x)[0])]
+    if cond[0] == "fall":
+        from entity_query_language import let, for_all
+        m = let(M, POOL)
+        return [for_all(m, m.w > getattr(x, cond[1]))]
     if cond[0] == "exq":
         from entity_query_language import an, entity, let, or_, HasType
         m = let(M, POOL)
@@ -453,6 +470,7 @@ def _build_join_branch(node, x, l, out, bound, sibling, alt_first, with_alt=True
         declare_alternatives()
 
 
+CONCLUSION_SUBQUERY = [False]         # set per case by build(): conclusions carry a nested query as a field value
 POSITIONAL_CONCLUSIONS = [False]      # set per case by build(): conclusions spelled Out(tag, x) instead of Out(tag=tag, src=x)
 
 
@@ -464,7 +482,14 @@ def _build_branch(node, x, out, sibling=False, with_alt=True, alt_first=False):
     from entity_query_language import Add
     from entity_query_language.rule import refinement, alternative
     cond, tag, ref, alt = node
-    Add(out, Out(tag, x) if POSITIONAL_CONCLUSIONS[0] else Out(tag=tag, src=x))
+    if CONCLUSION_SUBQUERY[0]:
+        # the conclusion's third field is a nested query (with an or_ in it) that occurs nowhere else in the tree: the one
+        # pool object whose value is x.a
+        from entity_query_language import an, entity, let, or_, HasType
+        m = let(M, POOL)
+        Add(out, Out(tag=tag, src=x, link=an(entity(m, m.v == x.a, or_(HasType(m, M2), m.w > 0)))))
+    else:
+        Add(out, Out(tag, x) if POSITIONAL_CONCLUSIONS[0] else Out(tag=tag, src=x))
 
     def declare_refinement():
         if ref is not None:
@@ -497,6 +522,7 @@ def build(case, objs, links=None):
     from entity_query_language.symbolic import rule_mode
     tree = case["tree"]
     POSITIONAL_CONCLUSIONS[0] = bool(case.get("positional"))
+    CONCLUSION_SUBQUERY[0] = bool(case.get("concl_subq")) and not case.get("join")
     with symbolic_mode():
         x = let(N, objs)
         out = let(Out)
@@ -522,6 +548,8 @@ def _tags(node, acc=None):
 def encode(o, idx, lidx=None):
     if type(o) is not Out:
         return ("NOT_AN_OUT:" + type(o).__name__, -1)
+    if CONCLUSION_SUBQUERY[0] and not (isinstance(o.link, M) and any(o.link is m for m in POOL) and o.link.v == getattr(o.src, "a", None)):
+        return (str(o.tag) + ":FIELD_IS_NOT_THE_SOLUTION_OF_ITS_QUERY:" + type(o.link).__name__, idx.get(id(o.src), -1))
     if lidx is not None:
         return (o.tag, idx.get(id(o.src), -1), lidx.get(id(o.link)) if o.link is not None else None)
     return (o.tag, idx.get(id(o.src), -1))
@@ -568,6 +596,8 @@ def run_incremental(case, objs, caching):
     from entity_query_language.symbolic import rule_mode
     from entity_query_language.cache_data import enable_caching, disable_caching
     tree = case["tree"]
+    POSITIONAL_CONCLUSIONS[0] = bool(case.get("positional"))
+    CONCLUSION_SUBQUERY[0] = bool(case.get("concl_subq"))
     first = [tree[0], tree[1], tree[2], None]
     idx = {id(o): i for i, o in enumerate(objs)}
     (enable_caching if caching else disable_caching)()
@@ -626,7 +656,83 @@ def _shape_tags(node, under=None, acc=None):
     return acc
 
 
+def gen_flat_case(rng):
+    """a tree over (parent, flattened element): the matches of the base are (p, e) pairs, several per parent"""
+    from .. import ix
+    return {"flat": True, "world": ix.gen_world(rng), "k0": rng.randint(1, 4), "ref": rng.choice([None, 1, 2, 3, 4]),
+            "refalt": rng.choice([None, None, 2, 4]), "alt": rng.choice([None, 0, 2, 4, 99]), "caching": rng.random() < 0.7,
+            # (the element is always constrained by the base: a conclusion over an expression that no condition before it has
+            #  bound has no assignment to take the value from)
+            "e_in_base": True}
+
+
+def check_flat_case(case, ctx):
+    """base (p.k >= k0 [, e.n >= 1]) -> 'base' | refinement e.n > r -> 'ref' | its alternative e.n > ra -> 'refalt' |
+    alternative of the base e.n > a -> 'alt';  e = flatten(p.items); every conclusion carries the pair (p, e)"""
+    from entity_query_language import symbolic_mode, let, entity, infer, Add
+    from entity_query_language.entity import flatten
+    from entity_query_language.rule import refinement, alternative
+    from entity_query_language.symbolic import rule_mode
+    from entity_query_language.cache_data import enable_caching, disable_caching
+    from .. import ix
+    es, ps = ix.build_world(case["world"])
+    ctx.cls("cls:matches_are_parent_element_pairs")
+    ctx.cls("cls:caching_on" if case["caching"] else "cls:caching_off")
+    exp = []
+    for pi, p in enumerate(ps):
+        for x in p.items:
+            if p.k >= case["k0"]:
+                if case["ref"] is not None and x.n > case["ref"]:
+                    exp.append(("ref", pi, x.n))
+                elif case["ref"] is not None and case["refalt"] is not None and x.n > case["refalt"]:
+                    exp.append(("refalt", pi, x.n))
+                else:
+                    exp.append(("base", pi, x.n))
+            elif case["alt"] is not None and x.n > case["alt"]:
+                exp.append(("alt", pi, x.n))
+    if len({t for t, _, _ in exp}) >= 2:
+        ctx.nontrivial()
+    if any(len(p.items) >= 2 for p in ps):
+        ctx.cls("cls:parent_with_several_elements")
+    (enable_caching if case["caching"] else disable_caching)()
+    try:
+        with symbolic_mode():
+            p = let(ix.Par, ps)
+            e = flatten(p.items)
+            out = let(Out)
+            q = infer(entity(out, p.k >= case["k0"], *([e.n >= 1] if case["e_in_base"] else [])))
+        with rule_mode(q):
+            Add(out, Out(tag="base", src=p, link=e))
+            if case["ref"] is not None:
+                with refinement(e.n > case["ref"]):
+                    Add(out, Out(tag="ref", src=p, link=e))
+                    if case["refalt"] is not None:
+                        with alternative(e.n > case["refalt"]):
+                            Add(out, Out(tag="refalt", src=p, link=e))
+            if case["alt"] is not None:
+                with alternative(e.n > case["alt"]):
+                    Add(out, Out(tag="alt", src=p, link=e))
+        pidx = {id(p_): i for i, p_ in enumerate(ps)}
+        for rnd in range(2):
+            got = [(o.tag, pidx.get(id(o.src), -1), getattr(o.link, "n", "?")) if type(o) is Out else ("NOT_AN_OUT", -1, -1)
+                   for o in q.evaluate()]
+            if Counter(got) != Counter(exp):
+                miss = sorted((Counter(exp) - Counter(got)).elements())
+                extra = sorted((Counter(got) - Counter(exp)).elements())
+                ctx.fail("CONCLUSIONS:pairs:" + ("missing" if miss else "") + ("+extra" if extra else ""),
+                         {"evaluation": rnd + 1, "missing": miss[:8], "extra": extra[:8], "n_expected": len(exp), "n_observed": len(got)})
+                return
+    except Exception as e_:
+        import traceback
+        ctx.fail("EXC", f"{type(e_).__name__}: {e_}\n{traceback.format_exc()[-800:]}")
+    finally:
+        enable_caching()
+    ctx.sample({"flat": True, "expected": exp[:4]})
+
+
 def check_case(case, ctx):
+    if case.get("flat"):
+        return check_flat_case(case, ctx)
     objs = _objs(case)
     links = _links(case, objs)
     exp = expected(case, objs, links)
@@ -649,8 +755,10 @@ def check_case(case, ctx):
         ctx.cls("cls:preceded_by_an_evaluation_in_which_user_code_raised")
     if case.get("decoy_rule") and not case.get("join"):
         ctx.cls("cls:earlier_rule_concluded_a_subclass_for_the_same_objects")
+    if case.get("concl_subq") and not case.get("join"):
+        ctx.cls("cls:conclusion_field_is_a_nested_query")
     for kind_, name_ in (("'or2'", "or_of_operands_with_different_variables"), ("'exq'", "nested_query_as_whole_branch_condition"),
-                         ("'pred'", "function_predicate_in_branch_condition")):
+                         ("'pred'", "function_predicate_in_branch_condition"), ("'fall'", "for_all_as_branch_condition")):
         if kind_ in repr(case["tree"]):
             ctx.cls("cls:" + name_)
     if "bare" in repr(case["tree"]):
